@@ -57,6 +57,48 @@ CLAIMS = {
          "note": "No proof claimed yet (static effect-ordering obligations planned). vermouth DeferredFileWriter exercised, not verified.",
          "technique": B_TECH},
 }
+
+CLAIMS.update({
+ "C01": {"level": "other",
+         "text": "Bounded only so far: 56k generated worlds (89 force fields in .ff and polyply .itp syntax incl. multi-residue from_itp blocks and terminal modifications x every connected residue graph <= 4 nodes x every resname assignment x resid offsets {1,7}) through MapToMolecule -> ApplyLinks -> ApplyModifications against the statement (each residue a verbatim re-indexed copy of its block, block interactions once per instance, only link/mod targets differ).",
+         "note": "No proof claimed yet. Known findings K14, K15, F11 (multi-residue block placement).",
+         "technique": B_TECH},
+ "C03": {"level": "other",
+         "text": "Bounded only so far: 1974 gen_coords runs over every ordered choice of 1-3 molecule types x counts, the complete product of -box/-dens/-c/-mc/-b/-res/-grid/-start options on three topologies, 2 seeds: atom list/order/names, finiteness, box precedence and density box.",
+         "note": "No proof claimed yet (box precedence / _compute_box_size contracts planned). vermouth write_gro exercised.",
+         "technique": B_TECH},
+ "C04": {"level": "other",
+         "text": "Bounded only so far: every expressible split of four systems into given / centre-only / missing residues, -res rebuilding, -ign at every position, and every set of <= 2 scripted placement failures; supplied atoms compared bit-for-bit, centres at 1e-6. (The random-walk side - supplied residues never touched, other molecules untouched - is proved in C17's units.)",
+         "note": "No proof claimed here. Known finding F2 (-ign indexing).",
+         "technique": B_TECH},
+ "C05": {"level": "other",
+         "text": "Deductive: pbc_complete / not_exceeds_max_dimensions, _take_step (one of the given vectors, scaled, wrapped into [0, box)), the loop of RandomWalk.update_positions (engine untouched while trying; an accepted point passed all five guards, is the only change, step = step_fudge * sigma(prev, cur); a failed placement changes nothing) and the lemmas 'a wrapped step differs by an integer number of box lengths' and 'a wrapped step of a unit vector with |step| <= box/2 keeps its length under the minimum image convention'. Bounded: 632 finished systems recomputed independently (step lengths, box, grid start, 0.1 nm floor).",
+         "note": TRUST + "The guards are named predicates inside this proof (their geometric meaning is proved in C07's units, the force/0.1 nm floor of compute_force_point is decided by the bounded units of C05/C16). Engine methods appear with the abstract contracts that C16 proves for the concrete engine (refinement lemma).",
+         "technique": P_TECH + "; " + B_TECH},
+ "C07": {"level": "other",
+         "text": "Deductive: in_sphere / in_rectangle / in_cylinder accept a point only on the demanded side of the body (geometric meaning written from the statement), fulfill_geometrical_constraints accepts only if every declared restraint holds (loop invariant over any number of restraints, dispatch table included), is_restricted only if the step has the sign of the reference angle and its angle to the normal is within |ref|, checks_milestones only if every distance restraint holds under the minimum image distance. Bounded: 432 finished structures vs build file (all restraint kinds, rings 3-8 with -cycles, persistence sampling).",
+         "note": TRUST + "arccos/degrees uninterpreted; set_distance_restraint's bounds and persistence sampling are decided by the bounded unit only.",
+         "technique": P_TECH + "; " + B_TECH},
+ "C13": {"level": "other",
+         "text": "Bounded only: metamorphic contract canon(pipeline(t(x))) == canon(pipeline(x)) over 27k (world, transformation) pairs: node insertion order, key relabelling, edge orientation/order, definition order inside files, file order, file splitting, 1-2 unrelated runs before in the same process. A two-run relation is outside what per-function contracts express; determinism-over-a-canonical-view contracts are planned.",
+         "note": "No proof claimed. Known findings F11, K15, K17, K18 (and K9/K11 under C02).",
+         "technique": B_TECH},
+ "C14": {"level": "other",
+         "text": "Bounded only so far: 17k worlds (144 force fields with every nrexcl combination in {1,2,3}, explicit exclusions, both syntaxes x all residue graphs <= 4): every atom pair recounted against the bond graph: excluded iff distance <= nrexcl of the block of one of them or explicitly excluded; uniform nrexcl invents nothing.",
+         "note": "No proof claimed yet. Known finding K16.",
+         "technique": B_TECH},
+})
+CLAIMS["C16"]["text"] = ("Deductive: the representation invariant of NonBondEngine (positioned residues = keys of gndx_to_tree = entries of exactly one index list, each tree holds exactly the rows of its index list) is ESTABLISHED by __init__ and concatenate_trees and PRESERVED by add_positions (both branches incl. the >5000 new-tree branch and re-adding a positioned residue) and remove_positions (any list of residues, trees rebuilt for every touched list), with the view postconditions 'last position given' / 'undefined after removal' / 'nothing else changes'; get_point returns the stored row; a refinement lemma derives the abstract contracts the callers use. _lennard_jones_force = -V'(r)(point-ref)/r (sympy re-derives V'), pbc_min_dist = norm of per-component minimum images, metric laws from the frac schemas. Bounded: every history of length <= 2 (multi-tree world <= 3, tree threshold lowered by AST rewrite) against a brute-force periodic reference, which also exercises compute_force_point (neighbour set, exclusions, 0.1 nm floor) that is not under contract.")
+CLAIMS["C16"]["note"] = TRUST + "Ghost fields (_gslot, _gstale, _gwhere) updated by ghost hooks keyed to statements; KD-tree assumed to be the sequence of its rows; np.where idiom modelled (increasing list of defined indices); frac lemma schemas certified against Mathlib in lean/Frac.lean (run in the thorough tier); compute_force_point decided by the bounded unit only."
+CLAIMS["C17"]["note"] = TRUST + "Inside the proof of _random_walk: update_positions is used with the contract its own body is proved to meet (C05 unit), _rewind likewise; NonBondEngine.add_positions/remove_positions appear over the abstract view posd, which C16 proves for the concrete engine (refinement lemma); search-tree facts of networkx dfs/bfs trees (each node target of one edge, parent-closed, rooted at the start residue) and _find_starting_node are assumed; monotonicity of the ghost counting function is proved by a separate base/step lemma. Termination not claimed. BuildSystem._handle_random_walk/_compose_system are decided by the bounded unit only."
+CLAIMS["C18"]["text"] = "Deductive: BuildDirector._tag_nodes appends the option to exactly the residues with the given name and an id in [start, stop), once, and leaves every other residue and attribute untouched (loop invariant over the node table). Bounded: " + CLAIMS["C18"]["text"].split("Bounded only so far: ")[1]
+CLAIMS["C18"]["technique"] = P_TECH + "; " + B_TECH
+CLAIMS["C18"]["note"] = TRUST + "Spec parsing, molecule index ranges, split and ligands are decided by the bounded unit only. Known findings K1-K3."
+CLAIMS["C19"]["text"] = "Deductive (finite, complete): the pairing table read from the real source is the Watson-Crick complement with 5'/3' exchanged for all 12 residue names, an involution, closed, without fixed point. " + CLAIMS["C19"]["text"]
+CLAIMS["C19"]["technique"] = "finite table laws discharged by z3 over the string theory; " + B_TECH
+CLAIMS["C20"]["text"] = "Deductive (static, over the real ASTs, with assumed effect contracts of the vermouth writer): in gen_params and gen_coords the only effect on the output path is the DeferredFileWriter flush and every processing stage call precedes it; in gen_seq the open(..,'w') follows graph generation. " + CLAIMS["C20"]["text"]
+CLAIMS["C20"]["technique"] = "static effect-ordering obligations over the real AST; " + B_TECH
+
 NOT_CLAIMED = {}
 NOTES = ("See DESIGN.md. Properties listed under not_applicable with the reason 'check not finished' are unclaimed work in progress, "
          "not judged inapplicable. level 'other' everywhere: each check combines deductive units (counted in coverage.obligations/discharged) "
